@@ -101,7 +101,8 @@ pub fn decode(bytes: &[u8], thorough: bool) -> (Built, Cfg) {
     let sampling_seed = s.u32() as u64;
     let threads = match s.weighted(&[6, 8, 1, 1, 1]) {
         0 => 1,
-        1 => 2 + s.below(15),
+        // two to four threads split small games into the most tasks
+        1 => [2, 2, 3, 4, 2 + s.below(15), 2 + s.below(15)][s.below(6)],
         2 => 0,
         3 => {
             if thorough && s.chance(16) {
